@@ -26,6 +26,17 @@ SERIES = ["a.b", "c.d", "e", "web.cpu", "web.mem", "db1.q", "x.y.z", "s1", "s2",
 def gen(rng, tier):
     n = 24 if tier == "quick" else 240
     cases = []
+    # backlog batches: few series, large batches, the first POSTs fail so that every batch holds many points of each series
+    for k in range(3 if tier == "quick" else 24):
+        names = rng.sample(SERIES, rng.choice([2, 3, 5, 7]))
+        lines, ts = [], {}
+        for i in range(rng.choice([60, 150, 300])):
+            nm = names[i % len(names)] if k % 2 == 0 else rng.choice(names)
+            ts[nm] = ts.get(nm, 1000) + 10
+            lines.append("%s %d %d" % (nm, 7000000 + k * 100000 + i, ts[nm]))
+        cases.append({"concurrency": rng.choice([1, 1, 2]), "bufsize": 1000, "flushmaxnum": rng.choice([14, 50, 150]), "flushmaxwait_ms": 50,
+                      "blocking": True, "faults": [rng.choice(["500", "reset", "503trunc"]) for _ in range(rng.choice([1, 2]))], "lines": lines,
+                      "pause_every": 0, "shutdown": True})
     for k in range(n):
         conc = rng.choice([1, 1, 2, 3, 4])
         blocking = rng.random() < .3
